@@ -218,7 +218,7 @@ package ischema
 
 //@ func (*ObjectNodeKeys).Set
 //@   property C07
-//@   requires k != nil && k.index != nil
+//@   may_panic
 //@   modifies k.Data, elems(k.Data), mapof(k.index)
 //@   ensures len(k.Data) == old(len(k.Data)) + 1 && k.Data[len(k.Data)-1] == v
 //@   ensures forall i :: 0 <= i && i < old(len(k.Data)) ==> k.Data[i] == old(k.Data[i])
@@ -226,7 +226,7 @@ package ischema
 
 //@ func (*ObjectNode).AddKey
 //@   property C07
-//@   requires n != nil && n.keys != nil && n.keys.index != nil
+//@   may_panic
 //@   modifies n.keys.Data, elems(n.keys.Data), mapof(n.keys.index)
 //@   ensures len(n.keys.Data) == old(len(n.keys.Data)) + 1
 //@   ensures n.keys.Data[len(n.keys.Data)-1].Key == key && n.keys.Data[len(n.keys.Data)-1].IsShortcut == isShortcut && n.keys.Data[len(n.keys.Data)-1].Index == len(n.children)
@@ -236,7 +236,6 @@ package ischema
 // an inherited (or loaded) property is appended after the existing ones, and its key names exactly the child appended
 //@ func (*ObjectNode).AddChild
 //@   property C07
-//@   requires n != nil && n.keys != nil && n.keys.index != nil && child != nil
 //@   modifies anything()
 //@   may_panic
 //-  (stated where the child is about to be appended: what follows sets the child's parent through an embedded struct, outside the verifier's subset)
